@@ -189,7 +189,21 @@ impl RADAU {
         let n = y.len();
         let mut rtol = rtol;
         let mut atol = atol;
-        for i in 0..n {
+        // A scalar tolerance is one shared value: transform it once, not once per component
+        let ntol = match (&rtol, &atol) {
+            (Tolerance::Scalar(_), Tolerance::Scalar(_)) => n.min(1),
+            _ => n,
+        };
+        if ntol == n {
+            // Mixed scalar/vector tolerances: expand so every component is transformed once
+            if let Tolerance::Scalar(v) = rtol {
+                rtol = Tolerance::Vector(vec![v; n]);
+            }
+            if let Tolerance::Scalar(v) = atol {
+                atol = Tolerance::Vector(vec![v; n]);
+            }
+        }
+        for i in 0..ntol {
             let quot = atol[i] / rtol[i];
             rtol[i] = 0.1 * rtol[i].powf(expm);
             atol[i] = rtol[i] * quot;
